@@ -520,6 +520,27 @@ func (k *c19) sets56() {
 		}
 	}
 
+	// the set of 0 members held as the zero value of the exported type (a nil map; what `var s Mysql56GTIDSet` and a
+	// foreign-flavor AddGTID on it give): same text, same block, and equal to its own round trips and to the allocated
+	// empty set, in both directions
+	{
+		var z replication.Mysql56GTIDSet
+		c.R.Count("set56/0-uuids/zero-value")
+		out := vh.Try(func() vh.Val {
+			str, blk := obs56(z)
+			b2, err := replication.NewMysql56GTIDSetFromSIDBlock(vh.Exact(blk))
+			back, err2 := replication.VerifParseMysql56GTIDSet(str)
+			alloc := replication.Mysql56GTIDSet{}
+			ok := err == nil && err2 == nil && b2.Equal(z) && z.Equal(b2) && back.Equal(z) && z.Equal(back) && alloc.Equal(z) && z.Equal(alloc) &&
+				b2.String() == str && back.String() == str && z.Contains(b2) && b2.Contains(z)
+			return vh.Ok(xs(str), vh.X(blk), vh.B(ok))
+		})
+		want := vh.Ok(xs(""), vh.X(make([]byte, 8)), vh.B(true))
+		if out.String() != want.String() {
+			k.spec("the zero-value empty set is not equal to its text / SID-block round trips", "Mysql56GTIDSet(nil)", want.String(), out.String())
+		}
+	}
+
 	// what was returned earlier is still what it was (a result that shares storage with a later call's result is not a
 	// value): every block and text kept from the loop above is compared once more, after all the other calls
 	for i := range blocks {
